@@ -81,6 +81,9 @@ def extract_nested_variables(
 
             component_subs[component.name()][sp.Symbol(var.name())] = sp.Symbol(name)
             all_subs[sp.Symbol(var.qname())] = sp.Symbol(name)
+            if isinstance(var, myokit.Variable) and var.is_state():
+                # The derivative of a state can be used in other expressions
+                all_subs[sp.Symbol(f"dot({var.qname()})")] = sp.Symbol(f"d{name}_dt")
             all_subs, component_subs_ = f(var, all_subs, component_subs)
         component_subs.update(component_subs_)
         return all_subs, component_subs
